@@ -14,7 +14,12 @@ impl Checker for SyntaxErrorChecker {
 
     fn check(context: &mut DiagnosticContext, semantic_model: &SemanticModel) {
         if let Some(parse_errors) = semantic_model.get_file_parse_error() {
+            // error recovery can visit the same token twice and report the same error again
+            let mut reported = std::collections::HashSet::new();
             for parse_error in parse_errors {
+                if !reported.insert((parse_error.range, parse_error.message.clone())) {
+                    continue;
+                }
                 let code = match parse_error.kind {
                     LuaParseErrorKind::SyntaxError => DiagnosticCode::SyntaxError,
                     LuaParseErrorKind::DocError => DiagnosticCode::DocSyntaxError,
